@@ -265,7 +265,8 @@ type e2eRecord struct {
 	DL      [][]int    `json:"downloaded"`
 	Fails   []failure  `json:"-"`
 	Errors  []string   `json:"errors,omitempty"`
-	Em      [][]emitted `json:"-"`
+	Em      [][]emitted `json:"-"` // reference demultiplexer, callbacks of supported tracks only
+	EmAll   [][]emitted `json:"-"` // the same with the PES of unsupported elementary streams
 	Modeled bool       `json:"modeled"`
 }
 
@@ -311,6 +312,7 @@ func playOne(id int, d Desc) e2eRecord {
 		}
 	}
 	rec.Em = make([][]emitted, len(streams))
+	rec.EmAll = make([][]emitted, len(streams))
 	if rec.Desc.Kind == "mpegts" {
 		for si, st := range streams {
 			var idx []int
@@ -323,18 +325,29 @@ func playOne(id int, d Desc) e2eRecord {
 					idx = append(idx, k)
 				}
 			}
-			em, err := referenceParse(s, si, idx)
+			emAll, err := referenceParse(s, si, idx)
 			if err != nil {
 				rec.Errors = append(rec.Errors, "reference parse: "+err.Error())
 				return rec
 			}
+			em := supportedOnly(emAll)
 			// the demultiplexer must hand over exactly the written PES (identity by payload)
-			n := 0
+			n, nx := 0, 0
 			for _, k := range idx {
 				n += len(st.Segs[k].PES)
+				nx += len(st.Segs[k].XPES)
 			}
 			if len(em) != n {
 				rec.Errors = append(rec.Errors, fmt.Sprintf("stream %d: reference demultiplexer emitted %d units, %d were written", si, len(em), n))
+			}
+			if len(emAll)-len(em) != nx {
+				rec.Errors = append(rec.Errors, fmt.Sprintf("stream %d: reference demultiplexer emitted %d units of unsupported streams, %d were written", si, len(emAll)-len(em), nx))
+			}
+			for _, e := range emAll {
+				if e.Track < 0 && e.ID < 0 {
+					rec.Errors = append(rec.Errors, fmt.Sprintf("stream %d: reference demultiplexer unit %+v of an unsupported stream does not match what was written", si, e))
+					break
+				}
 			}
 			for _, e := range em {
 				p := trueTimes(st, e.ID)
@@ -344,6 +357,7 @@ func playOne(id int, d Desc) e2eRecord {
 				}
 			}
 			rec.Em[si] = em
+			rec.EmAll[si] = emAll
 		}
 	}
 	if len(rec.Errors) == 0 {
@@ -527,6 +541,43 @@ func main() {
 				dist["e2e:mpegts:wrap-inside-stream"]++
 			}
 		}
+		if d.Kind == "mpegts" {
+			nu, withPES := 0, false
+			for _, st := range d.streams() {
+				nu += len(st.Unsup)
+				for _, sg := range st.Segs {
+					if len(sg.XPES) > 0 {
+						withPES = true
+					}
+				}
+				vi := -1
+				for i, t := range st.Tracks {
+					if t.isVideo() {
+						vi = i
+						break
+					}
+				}
+				for _, u := range st.Unsup {
+					dist["e2e:mpegts:pmt-unsupported:codec:"+u.Codec]++
+					switch {
+					case vi >= 0 && u.Before <= vi:
+						dist["e2e:mpegts:pmt-unsupported:before-h264"]++
+					case u.Before >= len(st.Tracks):
+						dist["e2e:mpegts:pmt-unsupported:after-all-supported"]++
+					case u.Before == 0:
+						dist["e2e:mpegts:pmt-unsupported:before-all-supported(no-h264)"]++
+					default:
+						dist["e2e:mpegts:pmt-unsupported:between-supported"]++
+					}
+				}
+			}
+			dist[fmt.Sprintf("e2e:mpegts:pmt-unsupported-streams:%d", nu)]++
+			if withPES {
+				dist["e2e:mpegts:pmt-unsupported:with-pes-data"]++
+			} else if nu > 0 {
+				dist["e2e:mpegts:pmt-unsupported:without-pes-data"]++
+			}
+		}
 		if d.Kind == "fmp4" {
 			if b, ok := firstLeadBase(&d.Leading, d.firstSeg(&d.Leading)); ok {
 				switch {
@@ -568,7 +619,7 @@ func main() {
 					}
 				}
 			}
-			sw.add(coqE2E(d, &rec.Result, dl, rec.Em), 60, "e2e", i)
+			sw.add(coqE2E(d, &rec.Result, dl, rec.EmAll), 60, "e2e", i)
 			e2eInputs[i] = *d
 			rec.Modeled = true
 		}
@@ -615,6 +666,7 @@ func main() {
 		"evaluations":         len(directs) + len(descs),
 		"distinct_nontrivial": distinct,
 		"rule": "end-to-end streams from splitmix64(seed, index): fMP4 or MPEG-TS; 1 video + 0..3 audio (or audio only) in one playlist or as renditions; " +
+			"MPEG-TS PMTs with 0..2 unsupported elementary streams (MPEG-1 audio, AC-3, Opus, H265, MPEG-1/2/4 video) before / between / after the supported ones, with or without PES data; " +
 			"timescales from a realistic set or random; origin 0..2^40 (fMP4) / anywhere on the 33-bit circle incl. a wrap inside the stream (MPEG-TS); " +
 			"positive/negative pts offsets; 1..3 fragments per segment; whole-file or byte-range addressing; PROGRAM-DATE-TIME none/all/alternate segments; " +
 			"VOD, live (sliding window), EVENT, ENDLIST-without-type. distinct by SHA-256 of the description; non-trivial = played to EOS AND >= 3 units delivered " +
